@@ -143,3 +143,61 @@ Proof.
 Qed.
 
 End ChanFacts2.
+
+(* a non-empty queue has a receiver that has not read everything *)
+Lemma min_cursor_attained (l : list (nat * nat)) d : min_cursor l d = d \/ exists id p, In (id, p) l /\ p = min_cursor l d.
+Proof.
+  induction l as [|[i q] l IH]; cbn; [now left|]. destruct IH as [E|(id & p & Hin & E)].
+  - rewrite E. destruct (Nat.min_spec q d) as [[_ Em]|[_ Em]]; rewrite Em; [right; exists i, q; split; [now left | reflexivity] | now left].
+  - destruct (Nat.min_spec q (min_cursor l d)) as [[_ Em]|[_ Em]]; rewrite Em.
+    + right. exists i, q. split; [now left | reflexivity].
+    + right. exists id, p. split; [now right | assumption].
+Qed.
+
+Lemma cursor_in_first (l : list (nat * nat)) id p : In (id, p) l -> exists q, cursor_in l id = Some q.
+Proof.
+  induction l as [|[i q] l IH]; cbn; [tauto|]. intros [H|H].
+  - inversion H; subst. rewrite Nat.eqb_refl. eauto.
+  - destruct (Nat.eqb i id); eauto.
+Qed.
+
+Lemma qlen_pos_receiver {A} (c : chan A) : 0 < qlen c -> exists id p, In (id, p) (rcv c) /\ p < tail c.
+Proof.
+  unfold qlen, head. intros H. destruct (min_cursor_attained (rcv c) (tail c)) as [E|(id & p & Hin & E)]; [rewrite E in H; lia|].
+  exists id, p. split; [assumption | lia].
+Qed.
+
+Lemma cursor_in_none_iff (l : list (nat * nat)) id : cursor_in l id = None <-> ~ In id (map fst l).
+Proof.
+  induction l as [|[i q] l IH]; cbn; [tauto|]. destruct (Nat.eqb i id) eqn:E.
+  - apply Nat.eqb_eq in E. subst. split; [discriminate | tauto].
+  - apply Nat.eqb_neq in E. rewrite IH. tauto.
+Qed.
+Lemma map_fst_set_cursor (l : list (nat * nat)) id p : map fst (set_cursor l id p) = map fst l.
+Proof. induction l as [|[i q] l IH]; cbn; [reflexivity|]. destruct (Nat.eqb i id); cbn; [reflexivity | now rewrite IH]. Qed.
+Lemma in_del_cursor (l : list (nat * nat)) id x : In x (map fst (del_cursor l id)) -> In x (map fst l).
+Proof.
+  induction l as [|[i q] l IH]; cbn; [tauto|]. destruct (Nat.eqb i id); cbn; [tauto|]. intros [H|H]; [tauto | right; now apply IH].
+Qed.
+Lemma nodup_del_cursor (l : list (nat * nat)) id : NoDup (map fst l) -> NoDup (map fst (del_cursor l id)).
+Proof.
+  induction l as [|[i q] l IH]; cbn; intros H; [constructor|]. inversion H; subst. destruct (Nat.eqb i id); [now apply IH|].
+  cbn. constructor; [|now apply IH]. intros Hin. apply H2. eapply in_del_cursor; eassumption.
+Qed.
+Lemma cursor_in_nodup (l : list (nat * nat)) id p : NoDup (map fst l) -> In (id, p) l -> cursor_in l id = Some p.
+Proof.
+  induction l as [|[i q] l IH]; cbn; intros Hnd Hin; [tauto|]. inversion Hnd; subst. destruct Hin as [H|H].
+  - inversion H; subst. now rewrite Nat.eqb_refl.
+  - destruct (Nat.eqb i id) eqn:E; [|now apply IH]. apply Nat.eqb_eq in E. subst. exfalso. apply H1. apply in_map_iff. exists (id, p). tauto.
+Qed.
+
+Lemma try_recv_got_shape {A} id (c : chan A) x c' : try_recv id c = Got x c' -> cap c' = cap c /\ map fst (rcv c') = map fst (rcv c).
+Proof.
+  unfold try_recv. destruct (cursor c id) as [p|]; [|discriminate]. destruct (nth_error (log c) p); [|destruct (closed c); discriminate].
+  intros H. inversion H; subst. cbn. split; [reflexivity | apply map_fst_set_cursor].
+Qed.
+Lemma try_push_pushed_cap {A} (x : A) c c' : try_push x c = Pushed c' -> cap c' = cap c /\ rcv c' = rcv c.
+Proof.
+  unfold try_push. destruct (closed c); [discriminate|]. destruct (rcv c) eqn:Er; [discriminate|]. destruct (cap c <=? qlen c); [discriminate|].
+  intros H. inversion H; subst. cbn. now rewrite Er.
+Qed.
